@@ -100,10 +100,21 @@ def export_func(fn: Any) -> dict[str, Any]:
     # values whose definition is followed somewhere by an error test although the defining op
     # declares error_kind NEVER (e.g. the generator helper call): they may be NULL
     tested = set()
+    flags = set()   # registers a boolean branch tests (directly or through copies): literal values are tracked
     for b in fn.blocks:
         for op in b.ops:
             if isinstance(op, O.Branch) and op.op == O.Branch.IS_ERROR:
                 tested.add(op.value)
+            elif isinstance(op, O.Branch) and isinstance(op.value, O.Register):
+                flags.add(op.value)
+    grew = True
+    while grew:
+        grew = False
+        for b in fn.blocks:
+            for op in b.ops:
+                if isinstance(op, O.Assign) and op.dest in flags and isinstance(op.src, O.Register) and op.src not in flags:
+                    flags.add(op.src)
+                    grew = True
     blocks = []
     meta = []
     for b in fn.blocks:
@@ -115,11 +126,9 @@ def export_func(fn: Any) -> dict[str, Any]:
             st_ = [vid(x) for x in op.stolen()]
             r: dict[str, Any]
             if isinstance(op, O.Assign):
-                if isinstance(op.src, O.Undef):
-                    r = dict(k="assignundef", d=vid(op.dest))
-                else:
-                    c = 9
-                    if isinstance(op.src, O.Integer):
+                if True:
+                    c = 9   # (an Undef source exports as a literal: id 0)
+                    if isinstance(op.src, O.Integer) and op.dest in flags:
                         c = 1 if op.src.value != 0 else 0
                     r = dict(k="assign", d=vid(op.dest), s=s_, st=st_, c=c)
             elif isinstance(op, O.Goto):
@@ -280,7 +289,7 @@ def _add_kills(blocks: list[list[dict[str, Any]]]) -> None:
             if op["k"] == "branch":
                 op["kt"] = sorted(before - live_in[op["t"] - 1])
                 op["kf"] = sorted(before - live_in[op["f"] - 1])
-            elif op["k"] not in ("goto", "unreach", "ret"):
+            elif op["k"] not in ("goto", "unreach", "ret"):  # noqa
                 op["kl"] = sorted((before | def_b[bi][oi]) - live)
             live = before
 
@@ -661,7 +670,7 @@ def make_batches(funcs: list[dict[str, Any]], nb: int) -> list[list[dict[str, An
 
 
 def run_batches(funcs: list[dict[str, Any]], root: str, tag: str, nb: int, workers: int,
-                cfg: str = "Gen_Ownership.cfg", coverage: bool = True, timeout: int = 1500, par: int = 8) -> dict[str, Any]:
+                cfg: str = "Gen_Ownership.cfg", coverage: bool = False, timeout: int = 1500, par: int = 8) -> dict[str, Any]:
     """TLC in collection mode over all functions.  Returns states, transitions, the bad states
     (with the function they belong to), path ends, and per-action coverage summed over batches."""
     batches = make_batches(funcs, nb)
@@ -750,7 +759,7 @@ def show_function(prog: str, stage: str, fn: str, workdir: str) -> str:
     cwd = os.getcwd()
     try:
         if fname == "<probes>":
-            r = compile_probes(workdir, want_text=True)
+            r = compile_probes(workdir, want_text=True, which=name, ngen=240)
         else:
             for case_id, body in split_cases(os.path.join(CORPUS_DIR, fname)):
                 case = parse_case(fname, case_id, body)
@@ -771,56 +780,75 @@ PROBES_SRC = os.path.join(HERE, "c06_probes.py")
 RUNNER_SRC = os.path.join(HERE, "c06_runner.py")
 
 
-def compile_probes(workdir: str, want_text: bool = False) -> dict[str, Any]:
-    """IR of the probe module through the same exporter (real typeshed, as `mypyc' itself uses)."""
-    with open(PROBES_SRC, encoding="utf-8") as f:
-        src = f.read()
-    case = dict(file="<probes>", name="c06probes", main=src, files={}, real_typeshed=True)
+def compile_probes(workdir: str, want_text: bool = False, which: str = "c06probes", ngen: int = 0) -> dict[str, Any]:
+    """IR of the probe module (or of the generated family) through the same exporter (real typeshed,
+    as `mypyc' itself uses)."""
+    if which == "c06probes":
+        with open(PROBES_SRC, encoding="utf-8") as f:
+            src = f.read()
+    else:
+        src = generated_source(ngen)
+    case = dict(file="<probes>", name=which, main=src, files={}, real_typeshed=True)
     return compile_case(case, workdir, want_text=want_text)
 
 
-def export_probes(workroot: str) -> dict[str, Any]:
+def export_probes(args: tuple[str, str, int]) -> dict[str, Any]:
+    workroot, which, ngen = args
     if _REAL_INSERT[0] is None:
         _worker_init()
     cwd = os.getcwd()
     try:
-        r = compile_probes(os.path.join(workroot, "probes-ir"))
+        r = compile_probes(os.path.join(workroot, "ir-" + which), which=which, ngen=ngen)
     finally:
         os.chdir(cwd)
     if r["error"]:
-        raise MachineryError("probe module does not compile: " + r["error"])
+        raise MachineryError("module %s does not compile: %s" % (which, r["error"]))
     out = []
     for stage in ("rc", "final"):
         for fullname, rec in r[stage]:
-            out.append(dict(prog="<probes>::c06probes", stage=stage, fn=fullname,
+            out.append(dict(prog="<probes>::" + which, stage=stage, fn=fullname,
                             nops=sum(len(b) for b in rec["blocks"]), nvals=rec["nv"],
                             tla=func_to_tla(rec), meta=rec["_meta"], vals=rec["_vals"]))
     return dict(funcs=out)
 
 
-def build_probes(d: str, opt: str) -> None:
-    """Compile the probe module to a C extension with the working tree's mypyc (real command line)."""
-    os.makedirs(d, exist_ok=True)
-    shutil.copyfile(PROBES_SRC, os.path.join(d, "c06probes.py"))
-    shutil.copyfile(RUNNER_SRC, os.path.join(d, "c06_runner.py"))
-    env = repo_env({"MYPYC_OPT_LEVEL": opt, "MYPYC_DEBUG_LEVEL": "0"})
-    p = subprocess.run([PY, "-m", "mypyc", "c06probes.py"], cwd=d, env=env, capture_output=True, text=True, timeout=1200)
-    so = [f for f in os.listdir(d) if f.startswith("c06probes.") and f.endswith(".so")]
-    if p.returncode != 0 or not so:
-        raise MachineryError("mypyc build of the probe module failed (-O%s): %s" % (opt, (p.stdout + p.stderr)[-1500:]))
-    # the interpreted twin (CPython baseline) lives in its own directory
+def build_probes(d: str, opt: str, ngen: int) -> None:
+    """Compile the probe module and the generated family to C extensions with the working tree's
+    mypyc (real command line); each module is built by its own mypyc process."""
+    mods = {"c06probes": open(PROBES_SRC, encoding="utf-8").read(), "c06gen": generated_source(ngen)}
     os.makedirs(os.path.join(d, "interp"), exist_ok=True)
-    shutil.copyfile(PROBES_SRC, os.path.join(d, "interp", "c06probes.py"))
+    shutil.copyfile(RUNNER_SRC, os.path.join(d, "c06_runner.py"))
     shutil.copyfile(RUNNER_SRC, os.path.join(d, "interp", "c06_runner.py"))
+    env = repo_env({"MYPYC_OPT_LEVEL": opt, "MYPYC_DEBUG_LEVEL": "0"})
+
+    def one(name: str) -> None:
+        bd = os.path.join(d, "build-" + name)
+        os.makedirs(bd, exist_ok=True)
+        with open(os.path.join(bd, name + ".py"), "w", encoding="utf-8") as f:
+            f.write(mods[name])
+        # the interpreted twin (CPython baseline) lives in its own directory
+        with open(os.path.join(d, "interp", name + ".py"), "w", encoding="utf-8") as f:
+            f.write(mods[name])
+        p = subprocess.run([PY, "-m", "mypyc", name + ".py"], cwd=bd, env=env, capture_output=True, text=True, timeout=2400)
+        so = [f for f in os.listdir(bd) if f.startswith(name + ".") and f.endswith(".so")]
+        if p.returncode != 0 or not so:
+            raise MachineryError("mypyc build of %s failed (-O%s): %s" % (name, opt, (p.stdout + p.stderr)[-1500:]))
+        shutil.copyfile(os.path.join(bd, so[0]), os.path.join(d, so[0]))
+
+    with ThreadPoolExecutor(2) as ex:
+        list(ex.map(one, sorted(mods)))
 
 
-def run_probes(d: str, n: int, seed: int) -> dict[str, Any]:
+ISOLATED_CASES = ("gen_close_no_builtins",)
+
+
+def run_probes(d: str, n: int, seed: int, only: str | None = None, module: str = "c06probes") -> dict[str, Any]:
     """Run the runner in a child; returns results, and the case during which the child died (if any)."""
     env = dict(os.environ)
     env.pop("PYTHONPATH", None)
     env["PYTHONDONTWRITEBYTECODE"] = "1"
     env["PYTHONHASHSEED"] = "0"
-    p = subprocess.run([PY, "c06_runner.py", "c06probes", str(n), str(seed)], cwd=d, env=env,
+    p = subprocess.run([PY, "c06_runner.py", module, str(n), str(seed)] + ([only] if only else []), cwd=d, env=env,
                        capture_output=True, text=True, timeout=1200)
     results: dict[tuple[str, str], dict[str, Any]] = {}
     begun = None
@@ -902,19 +930,27 @@ def main(argv: list[str]) -> int:
 
     # ---- 1. dynamic binding: build the probe extension(s) in the background
     opts = ["0"] if tier == "quick" else ["0", "3"]
+    ngen = {"0": 40 if tier == "quick" else 240, "3": 60}
     build_pool = ThreadPoolExecutor(len(opts))
-    builds = {o: build_pool.submit(build_probes, os.path.join(root, "dyn-O" + o), o) for o in opts}
+    builds = {o: build_pool.submit(build_probes, os.path.join(root, "dyn-O" + o), o, ngen[o]) for o in opts}
 
     # ---- 2. IR of the corpus from the real pipeline of the working tree
     cases, sel_stats = select_cases(tier, rnd)
+    only = os.environ.get("C06_ONLY")   # development aid (mutant screening): restrict the corpus by regex
+    if only:
+        cases = [c for c in cases if re.search(only, c[0] + "::" + c[1])]
+        print("WARNING: C06_ONLY=%s restricts the corpus to %d programs; not a valid check run" % (only, len(cases)), flush=True)
+        v.notes.append("C06_ONLY=%s: corpus restricted, development run" % only)
     ex = export_corpus(cases, os.path.join(root, "exp"), nproc=14)
     funcs = ex["funcs"]
-    pex = export_probes(root)
+    with ProcessPoolExecutor(2, initializer=_worker_init) as pool:
+        pe = list(pool.map(export_probes, [(root, "c06probes", 0), (root, "c06gen", ngen["0"])]))
+    pex = dict(funcs=pe[0]["funcs"] + pe[1]["funcs"])
     n_corpus = len(funcs)
     print("exported %d function records (%d ops) from %d/%d programs in %.0fs; %d programs did not compile"
           % (n_corpus, sum(f["nops"] for f in funcs), ex["stats"]["compiled"], ex["stats"]["cases"],
              time.time() - t0, ex["stats"]["failed"]), flush=True)
-    if n_corpus < MIN_FUNCS[tier]:
+    if n_corpus < (50 if only else MIN_FUNCS[tier]):
         raise MachineryError("only %d functions exported (minimum %d): the exporter is broken" % (n_corpus, MIN_FUNCS[tier]))
     if ex["stats"]["compiled"] < 0.9 * ex["stats"]["cases"]:
         raise MachineryError("only %d of %d corpus programs compiled" % (ex["stats"]["compiled"], ex["stats"]["cases"]))
@@ -924,16 +960,36 @@ def main(argv: list[str]) -> int:
     t1 = time.time()
     nb = 12 if tier == "quick" else 32
     res = run_batches(funcs, root, "corpus", nb=nb, workers=2, par=8)
-    pres = run_batches(pex["funcs"], root, "probes", nb=1, workers=2, cfg="Gen_Ownership_Exits.cfg", coverage=False)
+    # TLC's -coverage is far too costly on the big data modules (it instruments every literal), so the
+    # per-action coverage is measured on a small batch: for every kind of op the smallest function
+    # containing it, plus the first functions of refcount.test
+    kinds = ("goto", "unreach", "branch", "ret", "inc", "dec", "assign", "lev", "addr", "unborrow", "tget", "op")
+    pick: dict[int, dict[str, Any]] = {}
+    for kd in kinds:
+        have = [f for f in funcs if ('k|->"%s"' % kd) in f["tla"]]
+        if kd == "unreach":   # reachable in the machine only after an op whose failure is not a literal
+            have = [f for f in have if any(nm == "RaiseStandardError" for blk in f["meta"] for nm, _ in blk)] or have
+        for f0 in sorted(have, key=lambda f: (f["nops"], f["prog"], f["fn"], f["stage"]))[:6]:
+            pick[id(f0)] = f0
+    for f in [f for f in funcs if f["prog"].startswith("refcount.test") and f["nops"] < 40][:50]:
+        pick[id(f)] = f
+    cres = run_batches(list(pick.values()), root, "cover", nb=1, workers=2, coverage=True)
+    pres = run_batches(pex["funcs"], root, "probes", nb=2, workers=2, cfg="Gen_Ownership_Exits.cfg", coverage=False)
     states += res["states"] + pres["states"]
     transitions += res["transitions"] + pres["transitions"]
     print("TLC: %d states, %d transitions, depth %d in %.0fs" % (states, transitions, res["depth"], time.time() - t1), flush=True)
-    never = sorted(a for a, (d, t) in res["cov"].items() if t == 0 and a.startswith("Do"))
-    if never:
-        raise MachineryError("actions never fired: %s" % never)
-    cov["Ownership"] = {"per_action": {a: {"distinct": d, "total": t} for a, (d, t) in sorted(res["cov"].items())
-                                       if a.startswith("Do") or a in ("Init", "InitFor")},
-                        "never_fired": never, "states": res["states"], "transitions": res["transitions"]}
+    acts = {a: dt for a, dt in cres["cov"].items() if a.startswith("Do")}
+    never = sorted(a for a, (d, t) in acts.items() if t == 0)
+    if never or len(acts) < 12:
+        raise MachineryError("actions never fired in the coverage batch: %s (seen %s)" % (never, sorted(acts)))
+    opkinds: dict[str, int] = {}
+    for f in funcs:
+        for kd in kinds:
+            opkinds[kd] = opkinds.get(kd, 0) + f["tla"].count('k|->"%s"' % kd)
+    cov["Ownership"] = {"per_action": {a: {"distinct": d, "total": t} for a, (d, t) in sorted(acts.items())},
+                        "never_fired": never, "per_action_measured_on": "coverage batch of %d functions (%d states)" % (len(pick), cres["states"]),
+                        "ops_by_kind_in_all_explored_functions": opkinds,
+                        "states": res["states"], "transitions": res["transitions"]}
 
     # ---- 4. verdict of the static part
     by_key: dict[str, list[dict[str, Any]]] = {}
@@ -973,6 +1029,7 @@ def main(argv: list[str]) -> int:
         if stage == "final":
             exits[fn] = kinds
     dyn_compared = 0
+    other_diffs: list[str] = []
     dyn_samples: list[Any] = []
     drift: list[str] = []
     for o in opts:
@@ -981,13 +1038,31 @@ def main(argv: list[str]) -> int:
         n = 30 if tier == "quick" else 200
         comp = run_probes(d, n, seed)
         base = run_probes(os.path.join(d, "interp"), max(5, n // 6), seed)
-        if base["died_in"] or base["rc"] != 0:
-            raise MachineryError("interpreted baseline run failed: %s %s" % (base["died_in"], base["stderr"]))
-        if comp["died_in"]:
-            case = comp["died_in"].split("/")[0]
-            v.violation("dyn:crash:" + case, {"kind": "dyn", "case": comp["died_in"], "opt": o, "rc": comp["rc"]},
-                        "the child running the compiled probe module died (exit %s) during case %s at -O%s: %s"
-                        % (comp["rc"], comp["died_in"], o, comp["stderr"][-300:]))
+        gcomp = run_probes(d, max(10, n // 4), seed, module="c06gen")
+        gbase = run_probes(os.path.join(d, "interp"), 5, seed, module="c06gen")
+        for bb in (base, gbase):
+            if bb["died_in"] or bb["rc"] != 0:
+                raise MachineryError("interpreted baseline run failed: %s %s" % (bb["died_in"], bb["stderr"]))
+        if len(gcomp["results"]) < 6 * ngen[o] and not gcomp["died_in"]:
+            raise MachineryError("generated-family runner produced only %d results" % len(gcomp["results"]))
+        comp["results"].update(gcomp["results"])
+        base["results"].update(gbase["results"])
+        deaths = [comp, gcomp]
+        for iso in ISOLATED_CASES:     # cases that may kill the process run in a child of their own
+            ci = run_probes(d, 3, seed, only=iso)
+            bi = run_probes(os.path.join(d, "interp"), 3, seed, only=iso)
+            if bi["died_in"] or bi["rc"] != 0 or not bi["results"]:
+                raise MachineryError("interpreted baseline of isolated case %s failed: %s" % (iso, bi["stderr"]))
+            comp["results"].update(ci["results"])
+            base["results"].update(bi["results"])
+            deaths.append(ci)
+        for cd in deaths:
+            if cd["died_in"]:
+                case = cd["died_in"].split("/")[0]
+                dyn_compared += 1
+                v.violation("dyn:crash:" + case, {"kind": "dyn", "case": cd["died_in"].split("/"), "opt": o, "rc": cd["rc"]},
+                            "the child running the compiled probe module died (exit %s) during case %s at -O%s (CPython runs the same case fine): %s"
+                            % (cd["rc"], cd["died_in"], o, cd["stderr"][-300:]))
         if len(comp["results"]) < 50 and not comp["died_in"]:
             raise MachineryError("probe runner produced only %d results" % len(comp["results"]))
         for ck in sorted(comp["results"]):
@@ -1004,6 +1079,9 @@ def main(argv: list[str]) -> int:
                                     "refcount_delta_after_%d_calls" % n: rc_["delta"],
                                     "machine_exits": sorted(exits.get("native." + rc_["fn"], []))})
             per_call = [x / float(rc_["n"]) for x in rc_["delta"]]
+            if re.match(r"g\d+\.", case):
+                # the generated family: findings are keyed by the way the call ended, not by the function
+                case = "<generated>:" + "+".join(rc_["outs"])
             if any(x > 0 for x in rc_["delta"]):
                 v.violation("dyn:leak:" + case, {"kind": "dyn", "case": ck, "opt": o, "result": rc_},
                             "compiled %s leaks: refcount delta %s after %d calls (%s per call) on %s objects, outcome %s; CPython: balanced"
@@ -1012,9 +1090,15 @@ def main(argv: list[str]) -> int:
                 v.violation("dyn:over-release:" + case, {"kind": "dyn", "case": ck, "opt": o, "result": rc_},
                             "compiled %s releases references it does not own: refcount delta %s after %d calls on %s objects"
                             % (case, rc_["delta"], rc_["n"], ck[1]))
-            if not rc_["typed"] and rc_["outs"] != rb["outs"]:
-                v.violation("dyn:outcome:" + case, {"kind": "dyn", "case": ck, "opt": o, "compiled": rc_["outs"], "cpython": rb["outs"]},
-                            "compiled %s behaves differently from CPython: %s vs %s" % (case, rc_["outs"], rb["outs"]))
+            # the property's own oracle for undefined reads: UnboundLocalError / AttributeError exactly
+            # where CPython raises them (other differences in behaviour are not C06's business)
+            undef = {"UnboundLocalError", "AttributeError", "NameError"}
+            if not rc_["typed"] and (set(rc_["outs"]) & undef) != (set(rb["outs"]) & undef):
+                v.violation("dyn:undefined-read:" + rc_["case"], {"kind": "dyn", "case": ck, "opt": o, "compiled": rc_["outs"], "cpython": rb["outs"]},
+                            "compiled %s: outcomes %s, CPython: %s (an undefined local / attribute must raise as in CPython)"
+                            % (rc_["case"], rc_["outs"], rb["outs"]))
+            elif not rc_["typed"] and rc_["outs"] != rb["outs"]:
+                other_diffs.append("%s/%s: %s vs %s" % (ck[0], ck[1], rc_["outs"], rb["outs"]))
             # the machine's prediction of how the function can be left
             ek = exits.get("native." + rc_["fn"])
             if ek is not None:
@@ -1051,6 +1135,7 @@ def main(argv: list[str]) -> int:
         "compiler_crashes_on_corpus_programs": [list(c) for c in crashes][:10],
         "bad_states_by_invariant": inv_counts,
         "dynamic_probe_runs_compared": dyn_compared, "dynamic_opt_levels": ["-O" + o for o in opts],
+        "generated_functions": ngen, "behaviour_differences_outside_property": other_diffs[:10],
         "probe_functions_model_checked": len(pex["funcs"]),
         "search_depth": res["depth"],
         "samples": [{"function": sample_f["prog"] + " " + sample_f["fn"] + " [" + sample_f["stage"] + "]",
@@ -1074,7 +1159,7 @@ def do_replay(path: str) -> int:
             _worker_init()
         fname, name = r["prog"].split("::")
         if fname == "<probes>":
-            funcs = export_probes(root)["funcs"]
+            funcs = export_probes((root, name, 240))["funcs"]
         else:
             funcs = export_file((fname, root, [name]))["funcs"]
         hit = [f for f in funcs if f["fn"] == r["fn"] and f["stage"] == r["stage"]]
@@ -1086,8 +1171,10 @@ def do_replay(path: str) -> int:
         return 1 if violated else 0
     if r.get("kind") == "dyn":
         d = os.path.join(root, "dyn")
-        build_probes(d, r.get("opt", "0"))
-        comp = run_probes(d, 50, 0)
+        build_probes(d, r.get("opt", "0"), 240)
+        mod = "c06gen" if isinstance(r["case"], list) and re.match(r"g\d+\.", r["case"][0]) else "c06probes"
+        only = r["case"][0] if isinstance(r["case"], list) and r["case"][0] in ISOLATED_CASES else None
+        comp = run_probes(d, 50, 0, only=only, module=mod)
         ck = tuple(r["case"]) if isinstance(r["case"], list) else None
         res = comp["results"].get(ck) if ck else None
         print("replay:", r["case"], "->", res, "died_in:", comp["died_in"])
@@ -1096,9 +1183,90 @@ def do_replay(path: str) -> int:
     raise MachineryError("unknown replay file")
 
 
+
+
+# =========================================================================== generated programs
+GEN_STRUCT_SEED = 20260925   # the generated family is fixed; VERIF_SEED only permutes execution order
+
+
+def _gen_block(rnd: random.Random, depth: int, budget: int, ind: str, in_loop: bool) -> list[str]:
+    out: list[str] = []
+    for _ in range(budget):
+        k = rnd.randrange(16 if depth < 2 else 10)
+        if k == 0:
+            out.append(ind + rnd.choice(["x = y", "y = x", "x = a", "y = b", "x = t[0]", "y = t[1]", "x = l[0]", "y = [x, b]", "x = (x, y)"]))
+        elif k == 1:
+            out.append(ind + rnd.choice(["l.append(x)", "l = [y, x]", "l = l + [a]", "l.append(l[0])"]))
+        elif k == 2:
+            out.append(ind + rnd.choice(["t = (y, x)", "t = (t[1], t[0])", "x, y = t", "x, y = y, x", "t = (t[0], a)"]))
+        elif k == 3:
+            out.append(ind + "f()")
+        elif k == 4:
+            out.append(ind + rnd.choice(["d = {a: x}", "d[b] = y", "x = d[a]", "y = d.get(b)"]))
+        elif k == 5:
+            out.append(ind + rnd.choice(["if c:", "if not c:", "if len(l) > 1:"]))
+            out.append(ind + "    " + rnd.choice(["return x", "return [l, t]", "raise KeyError(y)", "w = x", "return (x, y)"]))
+        elif k == 6:
+            out.append(ind + rnd.choice(["x = w", "y = [w]"]))
+        elif k == 7:
+            out.append(ind + rnd.choice(["s = s + 'p'", "x = s", "n = n + (1 << 70)", "y = n", "x = str(n)"]))
+        elif k == 8:
+            out.append(ind + rnd.choice(["x = K(x).v", "k = K(y)", "k.v = x", "y = k.v"]))
+        elif k == 9:
+            out.append(ind + ("break" if in_loop and rnd.random() < 0.5 else "x = [x]"))
+        elif k in (10, 11):
+            out.append(ind + rnd.choice(["if c:", "if isinstance(x, list):", "if len(l) > 2:"]))
+            out += _gen_block(rnd, depth + 1, rnd.randint(1, 3), ind + "    ", in_loop)
+            if rnd.random() < 0.6:
+                out.append(ind + "else:")
+                out += _gen_block(rnd, depth + 1, rnd.randint(1, 2), ind + "    ", in_loop)
+        elif k == 12:
+            out.append(ind + rnd.choice(["for v in [a, b]:", "for i in range(2):", "for v in (x, y):"]))
+            out += _gen_block(rnd, depth + 1, rnd.randint(1, 3), ind + "    ", True)
+        else:
+            # (no break inside try: mypyc does not implement break/continue through try/finally)
+            out.append(ind + "try:")
+            out += _gen_block(rnd, depth + 1, rnd.randint(1, 2), ind + "    ", False)
+            out.append(ind + "    f()")
+            out += _gen_block(rnd, depth + 1, rnd.randint(0, 2), ind + "    ", False)
+            form = rnd.randrange(3)
+            if form in (0, 2):
+                out.append(ind + rnd.choice(["except ValueError:", "except ValueError as e:", "except (ValueError, KeyError):"]))
+                out += _gen_block(rnd, depth + 1, rnd.randint(1, 2), ind + "    ", False)
+            if form in (1, 2):
+                out.append(ind + "finally:")
+                out += _gen_block(rnd, depth + 1, rnd.randint(1, 2), ind + "    ", False)
+    return out
+
+
+def generated_source(nfuncs: int) -> str:
+    """A fixed (seed-independent) family of small functions over tracked objects: assignments, tuples,
+    lists, dicts, native attributes, loops, try/except/finally, early returns, raises, maybe-undefined `w`."""
+    rnd = random.Random(GEN_STRUCT_SEED)
+    src = ["from typing import Any, Optional", "", "",
+           "class K:", "    def __init__(self, v: object) -> None:", "        self.v = v", "", ""]
+    for i in range(nfuncs):
+        src.append("def g%d(a: object, b: object, f: Any, c: bool) -> object:" % i)
+        src += ["    x: Any = a", "    y: Any = b", "    l: list[object] = [a]",
+                "    t: tuple[object, object] = (a, b)", "    d: dict[object, object] = {}",
+                "    s: str = 'q'", "    n: int = 1 << 65", "    k: K = K(a)"]
+        if rnd.random() < 0.5:
+            src.append("    w: Any = b")
+        else:
+            src += ["    if c:", "        w: Any = a"]
+        src += _gen_block(rnd, 0, rnd.randint(3, 7), "    ", False)
+        src += ["    return [x, y, l, t, d, s, n, k]", "", ""]
+    return "\n".join(src) + "\n"
+
+
 if __name__ == "__main__":
     try:
         sys.exit(main(sys.argv[1:]))
     except MachineryError as e:
         print("MACHINERY FAILURE:", e, file=sys.stderr)
+        sys.exit(2)
+    except Exception:  # anything unexpected is a failure of the machinery, never a verdict
+        import traceback
+        traceback.print_exc()
+        print("MACHINERY FAILURE: unexpected exception", file=sys.stderr)
         sys.exit(2)
